@@ -678,6 +678,15 @@ impl<T: ?Sized> RwLock<T> {
     }
 }
 
+#[cfg(all(smol_rs_async_lock_verif, feature = "std"))]
+impl<T: ?Sized> RwLock<T> {
+    /// Verification hook: `(state, mutex state, mutex listeners, no_readers
+    /// listeners, no_writer listeners)`.
+    pub fn verif_state(&self) -> (usize, usize, usize, usize, usize) {
+        self.raw.verif_state()
+    }
+}
+
 impl<T: fmt::Debug + ?Sized> fmt::Debug for RwLock<T> {
     fn fmt(&self, f: &mut fmt::Formatter<'_>) -> fmt::Result {
         struct Locked;
